@@ -383,12 +383,17 @@ def limits_of(case_limits):
     return {k: (case_limits[k] if case_limits.get(k) is not None else DEFAULTS[k]) for k in DEFAULTS}
 
 
+def frame_type_of(case, act):
+    """the frame_type of an action: its own, else the one of the case"""
+    return act.get('frame_type') or case.get('frame_type', 'single_frame')
+
+
 def action_config(act, case):
     cfg = {}
     for k, key in CFG_KEYS.items():
         if act['limits'].get(k) is not None:
             cfg[key] = act['limits'][k]
-    cfg['frame_type'] = case.get('frame_type', 'single_frame')
+    cfg['frame_type'] = frame_type_of(case, act)
     if act.get('watches'):
         cfg['watches'] = list(act['watches'])
     if act.get('log') is not None:
@@ -402,6 +407,19 @@ def action_config(act, case):
 def host_source(case):
     """a host function whose parameters are the locals, in declaration order; returns (source, tracepoint line)."""
     names = [n for n, _ in case['locals']]
+    if case.get('recursion'):
+        # one inherited method on the stack several times with `self` of different classes (composite walk)
+        params = ''.join(', ' + n for n in names)
+        lines = ['class Base:',
+                 '    def walk(self, rest%s):' % params,
+                 '        if rest:',
+                 '            return rest[0].walk(rest[1:]%s)' % params,
+                 '        return 0',
+                 'class Alpha(Base): pass',
+                 'class Beta(Base): pass',
+                 'def host(%s):' % ', '.join(names),
+                 '    return Alpha().walk([Beta(), Alpha()]%s)' % params]
+        return '\n'.join(lines) + '\n', 5
     lines = ['def host(%s):' % ', '.join(names)]
     if case.get('locals_self'):
         lines.append('    %s = locals()' % case['locals_self'])
@@ -450,6 +468,7 @@ def dump_snap(s, obj_of_hash):
         'tp': s.tracepoint.id,
         'frames': [[dump_ref(v) for v in f.variables] for f in s.frames],
         'frame_funcs': [f.method_name for f in s.frames],
+        'frame_classes': [f.class_name for f in s.frames],
         'vars': [{'vid': k, 'type': v.type, 'value': v.value, 'truncated': v.truncated,
                   'children': [dump_ref(c) for c in v.children], 'obj': obj_of_hash(v.hash)}
                  for k, v in s.var_lookup.items()],
@@ -761,7 +780,7 @@ def model_request(case, obs):
         if not obs.get('due', [True] * len(case['actions']))[ai]:
             continue
         lim = limits_of(a['limits'])
-        ft = case.get('frame_type', 'single_frame')
+        ft = frame_type_of(case, a)
         frames = []
         for i in range(len(obs['frames_locals'])):
             coll = (ft == 'all_frame' or (ft != 'no_frame' and i == 0)) and not case.get('time_exceeded')
@@ -1239,7 +1258,7 @@ def judge_bounds(case, obs, live, ai, s):
     ref = Ref(lim)
     keep = live['keep']
     table = {int(e['vid']): e for e in s['vars']}
-    collected = case.get('frame_type', 'single_frame') != 'no_frame' and not case.get('time_exceeded')
+    collected = frame_type_of(case, case['actions'][ai]) != 'no_frame' and not case.get('time_exceeded')
     vids = snap_vids(s)
     n_alloc = max(vids | ({1} if collected and (s['frames'] and (s['frames'][0] or lim['vars'] >= 0)) else set()),
                   default=0)
@@ -1428,17 +1447,24 @@ def judge_total(case, obs, live):
         ref = Ref(lim)
         keep = live['keep']
         table = {int(e['vid']): e for e in s['vars']}
-        collected = case.get('frame_type', 'single_frame') != 'no_frame' and not case.get('time_exceeded')
+        ft = frame_type_of(case, a)
         n_alloc = max(snap_vids(s) | {1}, default=1)
-        if collected and live['frames_locals'] and lim['depth'] >= 2:
-            d = live['frames_locals'][0]
-            names = list(d.keys())
-            got_names = [r[1] for r in s['frames'][0]] if s['frames'] else []
+        # which frames carry variables is decided by the tracepoint's OWN frame_type
+        for fi in range(min(len(live['frames_locals']), len(s['frames']))):
+            want = (ft == 'all_frame' or (ft != 'no_frame' and fi == 0)) and not case.get('time_exceeded')
+            got_names = [r[1] for r in s['frames'][fi]]
+            if not want:
+                if got_names:
+                    v.append(f'tp{i}: frame {fi} carries variables {got_names[:5]} although frame_type is {ft}')
+                continue
+            if lim['depth'] < 2:
+                continue
+            names = list(live['frames_locals'][fi].keys())
             if got_names != names[:len(got_names)]:
-                v.append(f'tp{i}: frame variables {got_names[:8]} are not the locals {names[:8]}')
-            elif len(got_names) < len(names) and n_alloc < lim['vars'] + 1:
-                v.append(f'tp{i}: local {names[len(got_names)]!r} is missing ({len(got_names)} of {len(names)} locals, '
-                         f'{n_alloc} of {lim["vars"] + 1} variable ids used)')
+                v.append(f'tp{i}: variables of frame {fi} {got_names[:8]} are not its locals {names[:8]}')
+            elif fi == 0 and len(got_names) < len(names) and n_alloc < lim['vars'] + 1:
+                v.append(f'tp{i}: local {names[len(got_names)]!r} of frame {fi} is missing ({len(got_names)} of '
+                         f'{len(names)} locals, {n_alloc} of {lim["vars"] + 1} variable ids used, frame_type {ft})')
         for vid, e in table.items():
             o = keep[e['obj']] if e['obj'] is not None else None
             if o is None:
@@ -1458,6 +1484,11 @@ def judge_total(case, obs, live):
                 if strip(alone[0]) != strip(s):
                     v.append(f'tp{i}: its snapshot differs from the one it produces alone: '
                              f'{core.canon(strip(s))[:300]} vs alone {core.canon(strip(alone[0]))[:300]}')
+    if case.get('recursion'):
+        for s in obs.get('snapshots', []):
+            if s['frame_funcs'][:3] != ['walk', 'walk', 'walk'] or s['frame_classes'][:4] != ['Alpha', 'Beta', 'Alpha', None]:
+                v.append(f'{s["tp"]}: frames {list(zip(s["frame_funcs"][:4], s["frame_classes"][:4]))} — the stack is walk() on an '
+                         'Alpha, called from walk() on a Beta, called from walk() on an Alpha, called from host()')
     if obs.get('shared_tables'):
         v.append('two snapshots of one trace event share one variable table object')
     if obs.get('shared_frames'):
